@@ -235,6 +235,27 @@ class ModificationAwareTestCaseVisitor(ABC):
         """
 
 
+def _removal_drops_assertions(test_case: tc.TestCase, index: int) -> bool:
+    """Check whether removing a statement would remove an oracle.
+
+    The assertions attached to a statement need not read its own variable: the state of
+    an object is asserted after the call that changed it.  Removing such a call drops
+    these assertions, and the ones that later statements make about the same state no
+    longer hold.
+
+    Args:
+        test_case: The test case
+        index: The index of the statement that would be removed
+
+    Returns:
+        Whether the statement or one of its forward dependencies carries an assertion
+    """
+    return any(
+        test_case.get_statement(position).assertions
+        for position in test_case.forward_dependencies(index)
+    )
+
+
 class IterativeMinimizationVisitor(ModificationAwareTestCaseVisitor):
     """Iteratively tries to remove statements while preserving fitness.
 
@@ -283,7 +304,7 @@ class ForwardIterativeMinimizationVisitor(IterativeMinimizationVisitor):
             i = 0
             while i < test_case.size():
                 statement = test_case.get_statement(i)
-                if statement.bound_variable in protected:
+                if statement.bound_variable in protected or _removal_drops_assertions(test_case, i):
                     i += 1
                     continue
                 test_clone = test_case.clone()
@@ -316,7 +337,7 @@ class BackwardIterativeMinimizationVisitor(IterativeMinimizationVisitor):
             i = test_case.size() - 1
             while i >= 0:
                 statement = test_case.get_statement(i)
-                if statement.bound_variable in protected:
+                if statement.bound_variable in protected or _removal_drops_assertions(test_case, i):
                     i -= 1
                     continue
                 test_clone = test_case.clone()
@@ -495,7 +516,9 @@ class CombinedMinimizationVisitor(cv.ChromosomeVisitor):
                 protected = get_assertion_protected_variables(test_case)
                 i = 0
                 while i < test_case.size():
-                    if test_case.get_statement(i).bound_variable in protected:
+                    if test_case.get_statement(
+                        i
+                    ).bound_variable in protected or _removal_drops_assertions(test_case, i):
                         i += 1
                         continue
                     test_suite_clone = chromosome.clone()
